@@ -67,6 +67,20 @@ Definition reduce_coord_trimmed (c : coord) : pk_coord :=
   (cls_of c, reduce_grp (c_grp c), map snd (c_vals c),
    option_map (fun rs => reduce_records (filter (fun p => mem (fst p) (g_names (c_grp c))) rs)) (c_recs c)).
 
+(* the __reduce__ bodies as data (regenerated from the source into Gen/SerialReduceGen.v by
+   harness/translators/c18_reduce.py): the class handed to pickle and which attributes are passed, in order *)
+Inductive rarg := ADims | AVals | ARecs.
+Definition pk_of_args (target : coord_cls) (args : list rarg) (c : coord) : option pk_coord :=
+  match args with
+  | [ADims; AVals] => Some (target, reduce_grp (c_grp c), map snd (c_vals c), None)
+  | [ADims; AVals; ARecs] =>
+      match c_recs c with
+      | Some rs => Some (target, reduce_grp (c_grp c), map snd (c_vals c), Some (reduce_records rs))
+      | None => None     (* AttributeError: the basic classes have no _records slot *)
+      end
+  | _ => None            (* not a constructor signature: TypeError when unpickling *)
+  end.
+
 (* DatasetType.__reduce__: (name, dimensions, storageClassName, parentStorageClassName), {isCalibration} *)
 Definition pk_dt := (string * list string * string * option string * bool)%type.
 Definition reduce_dt_deep (t : dstype) : pk_dt := (t_name t, reduce_grp (t_grp t), t_sc t, t_psc t, t_calib t).
